@@ -478,7 +478,18 @@ func (p *queryPlan) addSpecifiedData(ctx context.Context, r table.Row, cls *sema
 	}
 
 	p.tbl.AddBindings(tbl.Bindings())
-	if tbl.NumRows() == 0 && cls.Optional {
+	added := 0
+	for _, nr := range tbl.Rows() {
+		// The clause could not always be specialized with the values of the row
+		// (a value of the wrong kind for the position, an alias). The retrieved
+		// row only extends the current one if they agree on the shared bindings.
+		if !compatibleRows(r, nr) {
+			continue
+		}
+		p.tbl.AddRow(table.MergeRows([]table.Row{r, nr}))
+		added++
+	}
+	if added == 0 && cls.Optional {
 		nr := make(table.Row)
 		for _, k := range tbl.Bindings() {
 			if _, ok := r[k]; !ok {
@@ -486,12 +497,42 @@ func (p *queryPlan) addSpecifiedData(ctx context.Context, r table.Row, cls *sema
 			}
 		}
 		p.tbl.AddRow(table.MergeRows([]table.Row{r, nr}))
-		return nil
-	}
-	for _, nr := range tbl.Rows() {
-		p.tbl.AddRow(table.MergeRows([]table.Row{r, nr}))
 	}
 	return nil
+}
+
+// sameValue returns true if both cells hold the same value. Time anchors are
+// compared as instants, the way the storage identifies temporal predicates.
+func sameValue(a, b *table.Cell) bool {
+	if a == nil || b == nil {
+		return a == b
+	}
+	if a.T != nil && b.T != nil {
+		return a.T.Equal(*b.T)
+	}
+	if a.P != nil && b.P != nil {
+		if a.P.ID() != b.P.ID() || a.P.Type() != b.P.Type() {
+			return false
+		}
+		ta, errA := a.P.TimeAnchor()
+		tb, errB := b.P.TimeAnchor()
+		if errA != nil || errB != nil {
+			return errA != nil && errB != nil
+		}
+		return ta.Equal(*tb)
+	}
+	return reflect.DeepEqual(a, b)
+}
+
+// compatibleRows returns true if the two rows agree on all the bindings they
+// share.
+func compatibleRows(r, nr table.Row) bool {
+	for k, v := range nr {
+		if rv, ok := r[k]; ok && !sameValue(rv, v) {
+			return false
+		}
+	}
+	return true
 }
 
 // specifyClauseWithTable runs the clause, but it specifies it further based on
